@@ -751,6 +751,12 @@ def _evaluate(case):
             stat("rejected")
         return devs, stats
     stat("model_accept")
+    # histories the MODEL accepts on a used parser / after a late import (counted here, before the implementation is
+    # looked at, for the same reason: a tree that wrongly rejects them must end in VIOLATION, not in a vacuity error)
+    if case.get("pre"):
+        stat("used_parser_accepted" if case["pre"].get("on", "same") == "same" else "used_library_accepted")
+    if case.get("late"):
+        stat("late_class_accepted")
     # lineage of the classes given by their bare name in a history the MODEL accepts (counted whatever the
     # implementation does with it, so that the vacuity guards speak about the space, not about the tree under test)
     for lab in {lineage_of(case["t"], T, s["c"]) for ch, form, spec in case["srcs"] for s in named_specs(spec, [])}:
@@ -769,10 +775,6 @@ def _evaluate(case):
         devs.append((f"reject-valid:form-{last_form}:{kind}{multi}", f"{shown} rejected: {o['message'][:300]}; model expects {M.describe(exp)}"))
         return devs, stats
     stat("accepted")
-    if case.get("pre"):
-        stat("used_parser_accepted" if case["pre"].get("on", "same") == "same" else "used_library_accepted")
-    if case.get("late"):
-        stat("late_class_accepted")
     if case.get("st") == "top":
         stat("toplevel_accepted")
     for k in ("kept", "dropped", "class_change", "regiven"):
@@ -950,9 +952,9 @@ def explore(ctx):
     ctx.require(totals.get("regiven", 0) >= 300, ">= 300 accepted histories in which a whole list / dict of classes is given again")
     ctx.require(totals.get("toplevel_accepted", 0) >= 60, ">= 60 accepted cases with sibling class-typed top-level arguments")
     ctx.require(totals.get("siblings/instantiated", 0) >= 200 and totals.get("recontainer/instantiated", 0) >= 200, "siblings and recontainer families: >= 200 instantiated configurations each")
-    ctx.require(totals.get("used_parser_accepted", 0) >= 300, ">= 300 accepted parses on a parser that was used before")
-    ctx.require(totals.get("used_library_accepted", 0) >= 50, ">= 50 accepted parses after an earlier parse on another parser")
-    ctx.require(totals.get("late_class_accepted", 0) >= 150, ">= 150 accepted parses naming a class of a module imported after an earlier parse")
+    ctx.require(totals.get("used_parser_accepted", 0) >= 300, ">= 300 model-valid histories on a parser that was used before")
+    ctx.require(totals.get("used_library_accepted", 0) >= 50, ">= 50 model-valid histories after an earlier parse on another parser")
+    ctx.require(totals.get("late_class_accepted", 0) >= 150, ">= 150 model-valid histories naming a class of a module imported after an earlier parse")
     ctx.require(totals.get("elem_kwargs/instantiated", 0) >= 50, "elem_kwargs family: >= 50 instantiated configurations")
     for lab in ("direct", "via-concrete", "via-abstract", "via-private", "diamond"):
         ctx.require(totals.get("name_only_valid:" + lab, 0) >= 10, f">= 10 valid histories name a class by its bare name that descends from the declared class {lab}")
